@@ -140,7 +140,7 @@ func refState(s *types.State) ([]byte, bool) {
 	w.u64(3, s.InitialHeight)
 	w.u64(4, s.LastBlockHeight)
 	var ts wbuf
-	ts.u64(1, uint64(s.LastBlockTime.Unix()))              // int64 as two's complement varint
+	ts.u64(1, uint64(s.LastBlockTime.Unix()))                     // int64 as two's complement varint
 	ts.u64(2, uint64(int64(int32(s.LastBlockTime.Nanosecond())))) // int32, sign-extended
 	w.bytesAlways(5, ts.b)
 	w.u64(6, s.DAHeight)
